@@ -80,6 +80,22 @@ def count_data_rows(res_desc, data):
         return len(raw_csv_rows(res_desc, data)[1])
     if fmt == 'json':
         return len(json.loads(data.decode(res_desc.get('encoding', 'utf-8'))))
+    if fmt == 'geojson':
+        doc = json.loads(data.decode(res_desc.get('encoding', 'utf-8')))
+        if doc.get('type') != 'FeatureCollection':
+            raise ValueError('not a FeatureCollection')
+        return len(doc['features'])
+    if fmt == 'xlsx':
+        import io
+        import openpyxl
+        wb = openpyxl.load_workbook(io.BytesIO(data), read_only=True)
+        try:
+            if len(wb.sheetnames) != 1:
+                raise ValueError('sheets %r' % wb.sheetnames)
+            n = sum(1 for _ in wb[wb.sheetnames[0]].iter_rows(values_only=True))
+        finally:
+            wb.close()
+        return max(n - 1, 0)
     raise ValueError(fmt)
 
 
